@@ -5,7 +5,7 @@
    so a Go read outside the message (a panic on the exact-capacity slice the harness passes) would be a
    disagreement with the model.  wf_* (coq/run/RunC45.v) are the "values within field widths". *)
 From Coq Require Import List ZArith Bool.
-From Bfe Require Import lib.Val lib.Bytes model.TlsMsgs proofs.TlsMsgsProofs run.RunC45.
+From Bfe Require Import lib.Val lib.Bytes model.TlsMsgs proofs.TlsMsgsProofs proofs.TlsMsgsWireProofs run.RunC45.
 Import ListNotations.
 Open Scope Z_scope.
 
@@ -109,6 +109,15 @@ Theorem C45_prop_of_model_parse : forall mt flag d,
 Proof. exact prop_parse_of_model. Qed.
 Print Assumptions C45_prop_of_model_parse.
 
+(* CENTRAL THEOREM.  For every well-formed harness input (a known message id; for a round-trip case,
+   fields of the right shape) the model's own output satisfies the executable property the harness
+   evaluates on the implementation: a value within field widths (and in canonical wire form) parses back
+   to equal fields, and every parse ends in true/false.  There is no known-finding class (kf_C45 = 0). *)
+Theorem C45_prop_of_model : forall i,
+  wf_C45 i = true -> kf_C45 i = 0 -> prop_C45 i (run_C45 i) = true.
+Proof. exact prop_of_model. Qed.
+Print Assumptions C45_prop_of_model.
+
 (* Non-vacuity: a ClientHello using all nine extensions is within the widths and round-trips. *)
 Example C45_client_hello_example :
   wf_ch ch_example = true /\ length (ch_exts ch_example) = 9%nat /\
@@ -117,3 +126,8 @@ Proof. exact ch_example_ok. Qed.
 Example C45_server_hello_example :
   wf_sh sh_example = true /\ length (sh_exts sh_example) = 5%nat.
 Proof. exact sh_example_ok. Qed.
+(* a generated corpus case (corpus/C45 rt-ch-all) is a well-formed input within the field widths *)
+Example C45_corpus_case_wf :
+  wf_C45 corpus_rt_ch_all = true /\
+  (exists f, corpus_rt_ch_all = VL [VZ 1; VZ 1; VZ 0; VL f] /\ wf_any 1 false f = true).
+Proof. exact corpus_rt_ch_all_wf. Qed.
